@@ -814,6 +814,119 @@ func vC11ExecObsCoq(ob exectypes.Observation) string {
 		vC11Counts(nonces), vC11Disc(ob.Contracts.Addresses))
 }
 
+// one execute round: phase (0 GetCommitReports, 1 GetMessages, 2 Filter) and the previous outcome the plugins receive
+type vC11ExecRound struct {
+	phase          int
+	pendingUnknown bool
+	outCtx         ocr3types.OutcomeContext
+}
+
+func vC11ExecGenRound(t *testing.T, r *vRand, w *vC11World, phase int, pendingUnknown bool) vC11ExecRound {
+	prev := exectypes.Outcome{State: []exectypes.PluginState{exectypes.Filter, exectypes.GetCommitReports, exectypes.GetMessages}[phase]}
+	if phase == 0 && r.Bool() {
+		prev.State = exectypes.Unknown
+	}
+	for _, ch := range vC11SortedKeys(w.Pending) {
+		for _, rp := range w.Pending[ch] {
+			cd := exectypes.CommitData{SourceChain: cciptypes.ChainSelector(ch), MerkleRoot: cciptypes.Bytes32{rp.Root},
+				SequenceNumberRange: cciptypes.NewSeqNumRange(cciptypes.SeqNum(rp.Start), cciptypes.SeqNum(rp.End)),
+				Timestamp:           time.Unix(1700000000, 0).UTC()}
+			if phase == 2 {
+				// the Filter phase reads the senders from the messages stored in the previous outcome
+				for s := 0; s < w.Senders[ch]; s++ {
+					cd.Messages = append(cd.Messages, cciptypes.Message{Sender: []byte{byte(s + 1)},
+						Header: cciptypes.RampMessageHeader{SourceChainSelector: cciptypes.ChainSelector(ch), SequenceNumber: cciptypes.SeqNum(rp.Start + uint64(s))}})
+				}
+			}
+			prev.PendingCommitReports = append(prev.PendingCommitReports, cd)
+		}
+	}
+	prevB, err := prev.Encode()
+	if err != nil {
+		t.Fatal(err)
+	}
+	return vC11ExecRound{phase, pendingUnknown, ocr3types.OutcomeContext{SeqNr: 5, PreviousOutcome: prevB}}
+}
+
+// Observation of every oracle of the world, each fed to ValidateObservation of every oracle; one case per observer.
+// mkIn builds the Coq input from (failing calls, reader state, observer)
+func vC11ExecRunWorld(t *testing.T, ctx context.Context, sink *vSink, sinkName string, c *vC11Cfg, w *vC11World, plugins []*Plugin,
+	rd vC11ExecRound, mkIn func(flS, stS string, o int) string, clsPre string, extra map[string]any) {
+	phase, pendingUnknown, outCtx := rd.phase, rd.pendingUnknown, rd.outCtx
+	flS, stS := w.coq()
+	for k, o := range c.Oracles {
+		var obsB []byte
+		panicMsg, errMsg := "", ""
+		status := func() (s string) {
+			defer func() {
+				if e := recover(); e != nil {
+					s = "Panic"
+					panicMsg = fmt.Sprint(e)
+				}
+			}()
+			b, err := plugins[k].Observation(ctx, outCtx, nil)
+			if err != nil {
+				errMsg = err.Error()
+				return "Err"
+			}
+			obsB = b
+			return "Ok"
+		}()
+		out := status
+		var verdicts []string
+		nfields := 0
+		if status == "Ok" {
+			dec, err := exectypes.DecodeObservation(obsB)
+			if err != nil {
+				t.Fatal(err)
+			}
+			out = cApp("Ok", vC11ExecObsCoq(dec))
+			nfields = len(dec.CommitReports) + len(dec.Messages) + len(dec.Nonces) + len(dec.Contracts.Addresses)
+			for j := range c.Oracles {
+				v := func() (s string) {
+					defer func() {
+						if e := recover(); e != nil {
+							s = "false"
+						}
+					}()
+					if err := plugins[j].ValidateObservation(ctx, outCtx, nil,
+						types.AttributedObservation{Observation: obsB, Observer: commontypes.OracleID(o)}); err != nil {
+						return "false"
+					}
+					return "true"
+				}()
+				verdicts = append(verdicts, v)
+			}
+		}
+		in := mkIn(flS, stS, o)
+		partial := len(c.role(o)) < len(c.Chains)
+		cls := clsPre + []string{"getcommitreports", "getmessages", "filter"}[phase]
+		if !w.Init {
+			cls = clsPre + "discovery-only"
+		}
+		if !c.reads(o, c.Dest) {
+			cls += "/no-dest"
+		} else if partial {
+			cls += "/partial"
+		} else {
+			cls += "/full"
+		}
+		if len(w.FailList) > 0 {
+			cls += "/failing-calls"
+		}
+		if pendingUnknown {
+			cls = "pending-unknown-chain/" + cls
+		}
+		show := map[string]any{"oracles": c.Oracles, "readers": c.Readers, "dest": c.Dest, "observer": o,
+			"phase": phase, "init": w.Init, "failing_calls": w.FailList, "status": status, "panic": panicMsg, "error": errMsg,
+			"pending": w.Pending, "reports": w.Reports, "observation": string(obsB), "verdicts": verdicts}
+		for kk, v := range extra {
+			show[kk] = v
+		}
+		sink.Emit(sinkName, cls, partial && (nfields > 0 || status != "Ok"), "("+in+", "+cPair(out, cList(verdicts))+")", show)
+	}
+}
+
 func TestVerif_C11_exec(t *testing.T) {
 	ctx := context.Background()
 	vC11FullRanges = false
@@ -837,102 +950,13 @@ func TestVerif_C11_exec(t *testing.T) {
 			w.NMsgs[13] = 2
 			w.Senders[13] = 1
 		}
-		prev := exectypes.Outcome{State: []exectypes.PluginState{exectypes.Filter, exectypes.GetCommitReports, exectypes.GetMessages}[phase]}
-		if phase == 0 && r.Bool() {
-			prev.State = exectypes.Unknown
-		}
-		for _, ch := range vC11SortedKeys(w.Pending) {
-			for _, rp := range w.Pending[ch] {
-				cd := exectypes.CommitData{SourceChain: cciptypes.ChainSelector(ch), MerkleRoot: cciptypes.Bytes32{rp.Root},
-					SequenceNumberRange: cciptypes.NewSeqNumRange(cciptypes.SeqNum(rp.Start), cciptypes.SeqNum(rp.End)),
-					Timestamp:           time.Unix(1700000000, 0).UTC()}
-				if phase == 2 {
-					// the Filter phase reads the senders from the messages stored in the previous outcome
-					for s := 0; s < w.Senders[ch]; s++ {
-						cd.Messages = append(cd.Messages, cciptypes.Message{Sender: []byte{byte(s + 1)},
-							Header: cciptypes.RampMessageHeader{SourceChainSelector: cciptypes.ChainSelector(ch), SequenceNumber: cciptypes.SeqNum(rp.Start + uint64(s))}})
-					}
-				}
-				prev.PendingCommitReports = append(prev.PendingCommitReports, cd)
-			}
-		}
-		prevB, err := prev.Encode()
-		if err != nil {
-			t.Fatal(err)
-		}
-		outCtx := ocr3types.OutcomeContext{SeqNr: 5, PreviousOutcome: prevB}
+		rd := vC11ExecGenRound(t, r, w, phase, pendingUnknown)
 		plugins := make([]*Plugin, len(c.Oracles))
 		for k, o := range c.Oracles {
 			plugins[k] = vC11ExecPlugin(ctx, w, o)
 		}
-		flS, stS := w.coq()
-		for k, o := range c.Oracles {
-			var obsB []byte
-			panicMsg, errMsg := "", ""
-			status := func() (s string) {
-				defer func() {
-					if e := recover(); e != nil {
-						s = "Panic"
-						panicMsg = fmt.Sprint(e)
-					}
-				}()
-				b, err := plugins[k].Observation(ctx, outCtx, nil)
-				if err != nil {
-					errMsg = err.Error()
-					return "Err"
-				}
-				obsB = b
-				return "Ok"
-			}()
-			out := status
-			var verdicts []string
-			nfields := 0
-			if status == "Ok" {
-				dec, err := exectypes.DecodeObservation(obsB)
-				if err != nil {
-					t.Fatal(err)
-				}
-				out = cApp("Ok", vC11ExecObsCoq(dec))
-				nfields = len(dec.CommitReports) + len(dec.Messages) + len(dec.Nonces) + len(dec.Contracts.Addresses)
-				for j := range c.Oracles {
-					v := func() (s string) {
-						defer func() {
-							if e := recover(); e != nil {
-								s = "false"
-							}
-						}()
-						if err := plugins[j].ValidateObservation(ctx, outCtx, nil,
-							types.AttributedObservation{Observation: obsB, Observer: commontypes.OracleID(o)}); err != nil {
-							return "false"
-						}
-						return "true"
-					}()
-					verdicts = append(verdicts, v)
-				}
-			}
-			in := "let fl := " + flS + " in " + cTup(c.coq(), "fl", stS, cNi(phase), cNi(o))
-			partial := len(c.role(o)) < len(c.Chains)
-			cls := []string{"getcommitreports", "getmessages", "filter"}[phase]
-			if !w.Init {
-				cls = "discovery-only"
-			}
-			if !c.reads(o, c.Dest) {
-				cls += "/no-dest"
-			} else if partial {
-				cls += "/partial"
-			} else {
-				cls += "/full"
-			}
-			if len(w.FailList) > 0 {
-				cls += "/failing-calls"
-			}
-			if pendingUnknown {
-				cls = "pending-unknown-chain/" + cls
-			}
-			sink.Emit("C11_exec", cls, partial && (nfields > 0 || status != "Ok"), "("+in+", "+cPair(out, cList(verdicts))+")",
-				map[string]any{"oracles": c.Oracles, "readers": c.Readers, "dest": c.Dest, "observer": o,
-					"phase": phase, "init": w.Init, "failing_calls": w.FailList, "status": status, "panic": panicMsg, "error": errMsg,
-					"pending": w.Pending, "reports": w.Reports, "observation": string(obsB), "verdicts": verdicts})
-		}
+		vC11ExecRunWorld(t, ctx, sink, "C11_exec", c, w, plugins, rd, func(flS, stS string, o int) string {
+			return "let fl := " + flS + " in " + cTup(c.coq(), "fl", stS, cNi(phase), cNi(o))
+		}, "", nil)
 	}
 }
